@@ -188,6 +188,8 @@ def _plugin_child(world, spec, out_path, trace_path):
         argv = ["-p", "inline_snapshot.pytest_plugin", "-p", "no:cacheprovider", "-p", "xdist", "-n", str(spec["xdist"])]
     if spec.get("pytester"):
         argv += ["-p", "pytester"]
+    if spec.get("asyncio"):
+        argv += ["-p", "pytest_asyncio.plugin"]  # async def tests run as asyncio tasks
     flags = spec.get("flags")
     if flags is not None:
         argv.append("--inline-snapshot=" + flags)
